@@ -97,7 +97,7 @@ def run(rep, tier, rng):
             faulty = base[:at] + defs + [rng.choice(WRAPS) % form] + base[at:]
             pos, ctx = at + len(defs), "macro-introduced identifier"
         else:
-            faulty, pos, kind, ctx = P.inject_fault(rng, g, base)
+            faulty, pos, kind, ctx = P.inject_fault(rng, g, base, helper_ok=True)
         if rng.random() < 0.3:
             # the failing form's TWIN, character for character, earlier in the text, inside a procedure that is never called: the error
             # of the later form is reported in the later form (nothing remembered from reading the first one may stand in for it)
@@ -139,6 +139,22 @@ def run(rep, tier, rng):
         if l > len(lines) + 1:
             rep.violation({"what": "the reported location is beyond the end of the text", "text": text, "implementation": a}); continue
         problem = None
+        if ctx == "earlier-helper" and k in ("unbound", "nonProcedure") and kind == k:
+            # the value-less name stands in the procedure the EARLIER form defined: reported there, at that identifier / operator
+            import re as _re
+            hname = _re.search(r"hlp-zz\d+", faulty[pos]).group(0)
+            hidx = max(i for i in range(pos) if faulty[i].startswith("(define") and hname in faulty[i] and "never-zz" not in faulty[i])
+            hstart, hend, _ = extents[hidx]
+            if not (within((l, c), hstart, hend) or within((l, c), start, end)):
+                problem = "the reported location %d:%d is neither in the failing form nor in the helper it calls (%s - %s)" % (l, c, hstart, hend)
+            if problem:
+                rep.violation({"what": problem, "text": text, "failing_form": faulty[pos], "fault_kind": kind, "context": ctx,
+                               "implementation": a, "model": b})
+                continue
+            if R.norm_result(a) != R.norm_result(b):
+                rep.violation({"broken": "correspondence of error locations model <-> implementation", "text": text,
+                               "implementation": a, "model": b}, no_input=True)
+            continue
         if not within((l, c), start, end):
             problem = "the reported location %d:%d is outside the failing form (which spans %s - %s)" % (l, c, start, end)
         elif use is not None:
